@@ -62,7 +62,7 @@ def scenarios(ctx):
             n = len(ch["sites"])
             for si in range(n):
                 if rng.random() < 0.5:
-                    kind = rng.choice(["multi", "symbolic", "dup", "homsnv", "weirdgt", "hetsnv_nopath", "multi_before", "symbolic_before"])
+                    kind = rng.choice(["multi", "symbolic", "dup", "homsnv", "weirdgt", "hetsnv_nopath", "multi_before", "symbolic_before", "symnoend"])
                     at_site = kind in ("dup", "multi_before", "symbolic_before")
                     pos0 = PW.SP * (si + 1) + (0 if at_site else rng.choice([14, 20, 26]))
                     # *_before: an unsupported record at the SAME position as a phasable site, listed in front of it
@@ -71,6 +71,8 @@ def scenarios(ctx):
         w["decor"] = extra
         w["prephased"] = prephased
         o = {"tag": rng.choice(["PS", "HP"]), "only_snvs": rng.random() < 0.2, "max_coverage": rng.choice([15, 3])}
+        if rng.random() < 0.2:
+            o["reference"] = False
         if ns > 1 and rng.random() < 0.5:
             o["samples"] = rng.sample(w["samples"], rng.randint(1, ns - 1))
         if len(w["chroms"]) > 1 and rng.random() < 0.4:
@@ -138,10 +140,13 @@ def _decorate(wd, d, paths):
         b = ref[p0]
         other = [c for c in "ACGT" if c != b]
         k = x["kind"].replace("_before", "")
-        gts = {"multi": ["1/2", "0/1", "0/2", "2/2"], "symbolic": ["0/1", "1/1", "0/0"], "dup": ["0/1", "0/0", "1/1"],
+        gts = {"multi": ["1/2", "0/1", "0/2", "2/2"], "symbolic": ["0/1", "1/1", "0/0"], "symnoend": ["0/1", "1/1", "0/0"], "dup": ["0/1", "0/0", "1/1"],
                "homsnv": ["0/0", "1/1"], "weirdgt": ["./.", "0/.", "./1", "./."], "hetsnv_nopath": ["0/1"]}[k]
-        alt = {"multi": other[0] + "," + other[1], "symbolic": "<DEL>"}.get(k, other[0])
+        alt = {"multi": other[0] + "," + other[1], "symbolic": "<DEL>", "symnoend": rng.choice(["<DEL>", "<INS>", "<DUP>"])}.get(k, other[0])
         info = "SVTYPE=DEL;END=%d" % (p0 + 5) if k == "symbolic" else "."
+        if k == "symnoend":
+            # a symbolic allele WITHOUT an END value (END is optional)
+            info = rng.choice([".", "SVTYPE=DEL"])
         calls = [[rng.choice(gts)] for _ in samples]
         dfmt = ["GT"]
         pre = wd.get("prephased")
@@ -230,6 +235,29 @@ def _file(path, it, names, onlysnv=False):
     return {"defs": _defs(header, it), "samples": [it("s:" + s) for s in samples], "recs": out}
 
 
+def _fixed_diff(pin, pout):
+    """classes of differences in the fixed columns (for the signature of SameRecords): the one recorded class is
+    'a symbolic ALT allele without END: INFO gains END=<POS+len(REF)-1>' (pysam's VariantFile.write syncs END)"""
+    from .. import world as W
+    ri, ro = W.read_vcf_text(pin)[2], W.read_vcf_text(pout)[2]
+    if len(ri) != len(ro):
+        return ["other"]
+    out = set()
+    for a, b in zip(ri, ro):
+        ka = [a[k] for k in ("chrom", "pos", "id", "ref", "alt", "qual", "filter")]
+        kb = [b[k] for k in ("chrom", "pos", "id", "ref", "alt", "qual", "filter")]
+        if ka == kb and a["info"] == b["info"]:
+            continue
+        sym = any(x.startswith("<") for x in a["alt"].split(","))
+        items = [] if a["info"] in (".", "") else a["info"].split(";")
+        want = items + ["END=%d" % (a["pos"] + len(a["ref"]) - 1)]
+        if ka == kb and sym and not any(x.startswith("END=") for x in items) and b["info"].split(";") == want:
+            out.add("symbolic-ALT-without-END:END-added")
+        else:
+            out.add("other")
+    return sorted(out)
+
+
 def drive(sc):
     wd = sc["world"]
     d = PW.workdir()
@@ -242,6 +270,7 @@ def drive(sc):
         ev = {"ev": "PhaseWrite", "exc": exc, "distrust": bool(o.get("distrust")), "onlysnv": bool(o.get("only_snvs")),
               "tag": o.get("tag", "PS"), "fin": _file(paths["vcf"], it, paths["names"], bool(o.get("only_snvs"))),
               "fout": _file(os.path.join(d, "out.vcf"), it, paths["names"], bool(o.get("only_snvs"))) if exc == "" else {"defs": [], "samples": [], "recs": []}}
+        ev["infodiff"] = _fixed_diff(paths["vcf"], os.path.join(d, "out.vcf")) if exc == "" else []
         ev["targets"] = [i + 1 for i, s in enumerate(wd["samples"]) if s in (o.get("samples") or wd["samples"])]
         ev["csel"] = [it("chr:" + c) for c in (o.get("chromosomes") or paths["names"])]
         return [ev]
@@ -260,6 +289,8 @@ def nontrivial(sc, events):
 def signature(sc, events, clause):
     w = sc["world"]
     o = w["opts"]
+    if clause == "SameRecords" and events and events[0].get("infodiff") == ["symbolic-ALT-without-END:END-added"]:
+        return "fixed columns differ only by: symbolic-ALT-without-END:END-added"
     return f"tag={o.get('tag')} prephased={w.get('prephased')} distrust={bool(o.get('distrust'))} subset={'yes' if o.get('samples') or o.get('chromosomes') else 'no'}"
 
 
